@@ -28,6 +28,7 @@ sys.path.insert(0, os.path.dirname(os.path.abspath(__file__)))
 from vlib import *
 import subprocess, re
 import c12_gen as G
+import c12_ops as O
 
 GEN_OPTS = ["-pdu=all", "-fcompound-names"]
 
@@ -838,6 +839,18 @@ def main(tier):
     xsets.append(G.xmod_witness(rng, 901, "silent"))
     XOPTS = [OPTION_SETS[0], ["-pdu=all", "-fcompound-names", "-no-gen-OER"], ["-pdu=auto", "-fcompound-names", "-fwide-types"]]
     xmod_futs = [pool.submit(case_xmod, ctx, i, xs, XOPTS[i % 3]) for i, xs in enumerate(xsets)]
+    # (k) every constraint operator of the grammar: the directed module (every operator in every operand position, the same in every
+    # run), random nestings, directed text for the operators outside the model; print/parse iterated four times
+    nops = 6 if quick else 60
+    opsmods = [O.ops_module("OpsD", rng, 0, 0, directed=True)]
+    for i in range(nops):
+        opsmods.append(O.ops_module("OpsR%d" % i, rng, 10, 1 + i % 3))
+    opsmods += O.ops_text_modules(rng)
+    ops_futs = [pool.submit(O.case_ops, ctx, i, m, m["family"] == "ops-text") for i, m in enumerate(opsmods)]
+    # (l) module identity: editions of one module name told apart by OID; every shape once (directed), then random shapes
+    nmi = len(O.MI_SHAPES) + (2 if quick else 40)
+    misets = [O.modid_set(rng, i, O.MI_SHAPES[i] if i < len(O.MI_SHAPES) else None) for i in range(nmi)]
+    mi_futs = [pool.submit(O.case_modid, ctx, i, ms, 24) for i, ms in enumerate(misets)]
     nsets = 12 if quick else 80
     sets = []
     for i in range(nsets):
@@ -1263,6 +1276,38 @@ def main(tier):
                 run.count("xmod_combined_ok")
     if xsets:
         run.sample({"xmod_set": [m["text"] for m in xsets[0]["mods"]], "shape": xsets[0]["shape"]})
+
+    # 4e. constraint operators: fixpoint over four print/parse rounds (bytes and sizes), model print(parse) vs asn1c -E ------------
+    ops_model, mi_model = {}, {}
+    if have_model:
+        lines, where = [], []
+        for mi_, m in enumerate(opsmods):
+            for t in m["types"]:
+                lines.append("c12_ops 0 " + " ".join(t["toks"]))
+                where.append(("ops", mi_))
+        mi_results = [f.result() for f in mi_futs]
+        for si, (ms, r) in enumerate(zip(misets, mi_results)):
+            for p in r["perms"]:
+                lines.append(O.modid_model_line(ms, p["perm"]))
+                where.append(("mi", si))
+        rcm, mo, me = run_lines(model, lines)
+        if rcm != 0 or len(mo) != len(lines):
+            run.violation("model:driver", {"what": "model driver failed (c12_ops / c12_lookup)", "stderr": me}, no_input=True)
+        else:
+            for (kind, k), out in zip(where, mo):
+                (ops_model if kind == "ops" else mi_model).setdefault(k, []).append(out)
+    for i, (m, f) in enumerate(zip(opsmods, ops_futs)):
+        O.eval_ops(run, m, f.result(), ops_model.get(i) if (have_model and m["types"]) else None)
+    for kind, note in O.ACT_KINDS:
+        run.count("act_kind_table:%s:%s" % (kind, note if run.dist.get("act_kind_reached:" + kind) else
+                                             ("NOT REACHED" if not note.startswith("unreachable") else note)))
+        if not run.dist.get("act_kind_reached:" + kind) and not note.startswith("unreachable"):
+            run.violation("harness:act-kind-not-reached", {"what": "no generated case reaches this constraint node kind", "kind": kind}, no_input=True)
+    run.sample({"ops_module": opsmods[0]["text"][:600]})
+    # 4f. module identity: exit status, diagnostics, printed text, per-type files under every file order; lookup model vs asn1c ---------
+    for i, (ms, f) in enumerate(zip(misets, mi_futs)):
+        O.eval_modid(run, ms, f.result(), mi_model.get(i) if have_model else None)
+    run.sample({"modid_set": dict(misets[0]["files"]), "shape": misets[0]["shape"]})
 
     # 5. shipped corpus ------------------------------------------------------
     for p, f in zip(files, corpus_futs):
